@@ -63,7 +63,8 @@ theorem push_spec (r : Ring) (v : Int) (hi : r.Inv) :
   obtain ⟨hc, hl, hr⟩ := hi
   simp only at hc hl hr
   simp only [Ring.len, Ring.isEmpty, beq_iff_eq] at hlen
-  simp only [Ring.push, Ring.isFull, Ring.isEmpty, beq_iff_eq]
+  have hc0 : ¬ (c = 0) := by omega
+  simp only [Ring.push, hc0, if_false, Ring.isFull, Ring.isEmpty, beq_iff_eq]
   rcases hr with ⟨rfl, rfl⟩ | ⟨h0, h1, t0, t1⟩
   · -- empty ring
     have hne : ¬ (Int.tmod (-1 + 1) c = -1) := by
@@ -170,7 +171,8 @@ theorem pop_spec (r : Ring) (hi : r.Inv) :
       have : ((hn : Int) - hn + 1).toNat = 1 := by omega
       rw [this]
       apply List.ext_getElem?; intro i; grind
-    · simp only [heq, if_false]
+    · have hc0 : ¬ ((cn : Int) = 0) := by omega
+      simp only [heq, hc0, if_false]
       rw [tmod_succ (by omega) h1 hc]
       by_cases hw : (hn : Int) + 1 = cn
       · simp only [hw, if_true]
@@ -268,7 +270,8 @@ theorem peek_spec (r : Ring) (hi : r.Inv) :
       cases hset : setIdx vs h 0 with
       | none => simp [hset] at hp
       | some ws =>
-        simp only [hset] at hp
+        have hc0 : ¬ (c = 0) := by omega
+        simp only [hset, hc0, if_false] at hp
         refine ⟨_, _, rfl, Or.inl ⟨rfl, ?_⟩⟩
         split at hp <;>
         · simp only [Option.some.injEq, Prod.mk.injEq] at hp
